@@ -74,6 +74,10 @@ func (b *block) seek(cmp comparer.Comparer, rstart, rlimit int, key []byte) (ind
 		// The smallest key is greater-than key sought.
 		index = rstart
 	}
+	if index >= b.restartsLen {
+		// No restart point in range: position at the end of the entries.
+		return index, b.restartsOffset, nil
+	}
 	offset = int(binary.LittleEndian.Uint32(b.data[b.restartsOffset+4*index:]))
 	return
 }
